@@ -1291,7 +1291,8 @@ fn account(acc: &mut Acc, sc: &Scenario, out: &RunOut, reference: &Reference, ro
         } else if sc.read_cap == 0 && sc.write_cap == 0 && sc.fsize_limit.is_none() && sc.stdout == "pipe" {
             if a[..n] != b[..n] {
                 let at = (0..n).find(|i| a[*i] != b[*i]).unwrap_or(0);
-                stats.harness_errors.push(format!("determinism: faulted trace diverges from its profile before the first fault (g={}): event {}: profile [{}] faulted [{}] rules {:?}", g, at, a[at], b[at], sc.rules.iter().map(|r| r.short()).collect::<Vec<_>>()));
+                stats.count("profile_prefix_divergences", 1);
+                stats.warnings.push(format!("faulted trace diverges from its profile before the first fault (g={}): event {}: profile [{}] faulted [{}] rules {:?}", g, at, a[at], b[at], sc.rules.iter().map(|r| r.short()).collect::<Vec<_>>()));
             }
             stats.count("profile_prefix_checks", 1);
         }
@@ -1344,6 +1345,7 @@ pub fn worker(cfg: &WorkerCfg, emit: &mut dyn FnMut(Violation)) -> Stats {
         let needs_profile = matches!(sc.config.as_str(), "enum" | "pair" | "fsize");
         let mut budget = 1_000_000u64;
         let mut digest = 0u64;
+        let mut odigest = 0u64;
         let mut dump: Vec<String> = vec![format!("{:?}", sc.argv), sc.config.clone()];
         let dumping = std::env::var("VERIF_DIGEST_DUMP").is_ok();
         if needs_profile {
@@ -1413,6 +1415,7 @@ pub fn worker(cfg: &WorkerCfg, emit: &mut dyn FnMut(Violation)) -> Stats {
                     break;
                 }
             };
+            odigest ^= fnv(format!("{:?}|{:?}", out.status, out.after).as_bytes());
             digest ^= trace_digest(&out.trace).rotate_left(1) ^ fnv(format!("{:?}|{:?}", out.status, out.after).as_bytes());
             if dumping {
                 dump.push("--- profile".into());
@@ -1430,6 +1433,7 @@ pub fn worker(cfg: &WorkerCfg, emit: &mut dyn FnMut(Violation)) -> Stats {
                     break;
                 }
             };
+            odigest ^= fnv(format!("{:?}|{:?}", out.status, out.after).as_bytes());
             digest ^= trace_digest(&out.trace) ^ fnv(format!("{:?}|{:?}", out.status, out.after).as_bytes());
             if dumping {
                 dump.push(format!("--- run {:?}", out.status));
@@ -1439,6 +1443,7 @@ pub fn worker(cfg: &WorkerCfg, emit: &mut dyn FnMut(Violation)) -> Stats {
             account(&mut acc, &sc, &out, &reference, &env.root, seed, g, None);
         }
         acc.stats.digests.insert(g, digest);
+        acc.stats.outcome_digests.insert(g, odigest);
         if let Ok(dir) = std::env::var("VERIF_DIGEST_DUMP") {
             let _ = std::fs::create_dir_all(&dir);
             let _ = std::fs::write(format!("{}/{}-{}.txt", dir, cfg.nworkers, g), dump.join("\n"));
